@@ -39,6 +39,7 @@ Source(rr) ==
     LET xs == RandInts(rr, 2, 4)
     IN IF rr[1] % 3 = 0 /\ xs # <<>> THEN New("stack", xs, Call("to_stack", <<LitArr(xs)>>))
        ELSE IF rr[1] % 3 = 1 /\ xs # <<>> THEN New("stack", xs, PushAll(Fn("stack", <<>>), xs, 1))
+       ELSE IF rr[1] % 3 = 2 /\ rr[2] % 2 = 0 THEN New("int", IntV((rr[3] % 7) - 1), Lit((rr[3] % 7) - 1))
        ELSE IF xs = <<>> THEN New("seq", <<IntV(7)>>, LitArr(<<IntV(7)>>))
        ELSE New("seq", xs, LitArr(xs))
 
@@ -46,7 +47,7 @@ Op(rr) ==
     LET S == Ents("stack")
     IN IF S = {} THEN Source(rr)
     ELSE
-    LET i == Ch(S, rr[1])  xs == pool[i].v  n == Len(xs)  o == Ch(1..13, rr[2])  x == (rr[3] % 7) - 1
+    LET i == Ch(S, rr[1])  xs == pool[i].v  n == Len(xs)  o == Ch(1..16, rr[2])  x == (rr[3] % 7) - 1
     IN CASE o \in {1, 2} -> New("stack", Append(xs, IntV(x)), Call("push", <<V(i), Lit(x)>>))
          [] o \in {3, 4} -> IF n = 0 THEN NewErr("stack", Call("tail", <<V(i)>>))
                             ELSE New("stack", SubSeq(xs, 1, n - 1), Call("tail", <<V(i)>>))
@@ -64,6 +65,10 @@ Op(rr) ==
                       IN New("seq", pool[j].v \o xs, Fn("add_rev", <<V(j), V(i)>>))
          [] o = 13 /\ Ents("seq") # {} -> LET j == Ch(Ents("seq"), rr[3])
                       IN New("stack", pool[j].v, Call("to_stack", <<V(j)>>))
+         \* pushing a value that is bound to a name: several stacks then hold the very same value object
+         \* (equality is structural: what lies below a shared element still counts)
+         [] o \in {14, 15, 16} /\ Ents("int") # {} -> LET j == Ch(Ents("int"), rr[3])
+                      IN New("stack", Append(xs, pool[j].v), Call("push", <<V(i), V(j)>>))
          [] OTHER -> Source(rr)
 
 Init == pool = <<>> /\ step = 0 /\ r = <<>>
